@@ -234,12 +234,20 @@ def worker(spec):
                 top.start_soon(run_task, spec_, name="ROOT")
                 await trio.testing.wait_all_tasks_blocked()
                 root = [t for t in top.child_tasks][0]
-                for recurse in (True, False):
+                kept_results = []
+                for recurse in (True, False, True):
                     with warnings.catch_warnings(record=True) as w:
                         warnings.simplefilter("always")
                         st = stackscope.extract(root, recurse_child_tasks=recurse)
                     if w:
                         bad.append(("warning", str(w[0].message)[:160]))
+                    # results are values: what an earlier extraction returned must not change because of this one
+                    from vlib import ctxmon as _ctxmon
+                    for old_st, old_sig in kept_results:
+                        res.count("earlier_results_rechecked")
+                        if _ctxmon.value_signature(old_st) != old_sig:
+                            bad.append(("an earlier result changed when a later extraction of the same tree ran",))
+                    kept_results.append((st, _ctxmon.value_signature(st)))
                     seen_nodes.clear()
                     try:
                         compare(root, st, ("ROOT",), recurse)
